@@ -1022,4 +1022,3 @@ func c10DepthBomb(r *rand.Rand, depth int) ([]byte, string) {
 	}
 	return []byte(s), fmt.Sprintf("bomb/shape%d", shape)
 }
-
